@@ -152,7 +152,13 @@ func (c *RPCClient) SendRequestAsync(ctx context.Context, addr string, req *tikv
 	}
 	select {
 	case batchConn.batchCommandsCh <- entry:
-		// will be fulfilled in batch send/recv loop.
+		// will be fulfilled in batch send/recv loop, unless the conn has been closed: the send loop may have
+		// exited already, then nobody will ever take the entry out of the channel.
+		select {
+		case <-batchConn.closed:
+			cb.Invoke(nil, errors.New("batchConn closed"))
+		default:
+		}
 	case <-ctx.Done():
 		// will be fulfilled by the after callback of ctx.
 	case <-batchConn.closed:
